@@ -220,11 +220,8 @@ Proof.
   assert (forall c, c <> 0 -> (c = lo \/ c = lo + 1) -> in_interval f (dec_rat c x) = false) as OUT.
   { intros c Hc Hor. destruct (in_interval f (dec_rat c x)) eqn:I; [|reflexivity]. exfalso.
     apply N.eqb_neq in Hc.
-    destruct Hor as [-> | ->]; rewrite Hc, I in Hb; cbn [negb andb] in Hb.
-    - destruct (negb (lo + 1 =? 0) && in_interval f (dec_rat (lo + 1) x)); [|discriminate].
-      destruct (rlt _ _); [discriminate|]. destruct (rlt _ _); [discriminate|]. destruct (N.even lo); discriminate.
-    - destruct (negb (lo =? 0) && in_interval f (dec_rat lo x)); [|discriminate].
-      destruct (rlt _ _); [discriminate|]. destruct (rlt _ _); [discriminate|]. destruct (N.even lo); discriminate. }
+    destruct Hor as [-> | ->]; rewrite Hc, I in Hb; cbn [negb andb fst snd] in Hb;
+      repeat match type of Hb with context [if ?b then _ else _] => destruct b; cbn [fst snd] in Hb end; discriminate. }
   destruct (N.le_gt_cases D lo) as [L|G].
   - assert (lo <> 0) as Hlo by lia.
     apply (outside_below f (dec_rat lo x) (dec_rat D x) Hf (dec_rat_wf _ _) (dec_rat_wf _ _) B1 (OUT lo Hlo (or_introl eq_refl))).
@@ -259,4 +256,79 @@ Theorem shortest_minimal f D x : fst f <> 0 -> shortest f = Some (D, x) ->
 Proof.
   intros Hf H p k' Hk Hx D' HD'. unfold shortest in H. pose proof Hf as Hf'. apply N.eqb_neq in Hf'. rewrite Hf' in H.
   exact (shortest_from_minimal f p Hf 17 1 (D, x) H k' Hk Hx D' HD').
+Qed.
+
+(* ------------------------------------------------------------------ lead_pos is the position of the leading decimal digit *)
+Lemma base_value_acc_lower : forall w a, a * 10 ^ N.of_nat (length w) <= base_value_acc 10 a w.
+Proof.
+  induction w as [|c w IH]; intro a.
+  - cbn [length base_value_acc]. change (N.of_nat 0) with 0. rewrite N.pow_0_r. lia.
+  - cbn [length base_value_acc]. rewrite Nat2N.inj_succ, N.pow_succ_r'.
+    specialize (IH (a * 10 + hex_val c)). nia.
+Qed.
+
+Lemma digits_len_bounds m : m <> 0 ->
+  10 ^ N.of_nat (length (digits_of m) - 1) <= m < 10 ^ N.of_nat (length (digits_of m)).
+Proof.
+  intro Hm. pose proof (LiteralProofs.digits_of_value m) as V. unfold base_value in V.
+  destruct (LiteralProofs.digits_of_shape m) as [[E _]|[_ (c & w & E & Hc & Hz & Hw)]]; [contradiction|].
+  rewrite E in *. cbn [length]. replace (S (length w) - 1)%nat with (length w) by lia. split.
+  - cbn [base_value_acc] in V. pose proof (base_value_acc_lower w (0 * 10 + hex_val c)) as L. rewrite V in L.
+    apply LiteralProofs.is_digit_spec in Hc. assert (1 <= hex_val c) as H1.
+    { unfold hex_val. assert (is_digit c = true) as D by (apply LiteralProofs.is_digit_spec; exact Hc). rewrite D. lia. }
+    nia.
+  - assert (forallb (LiteralProofs.digit_ok 10) (c :: w) = true) as F.
+    { assert (forall x, is_digit x = true -> LiteralProofs.digit_ok 10 x = true) as K.
+      { intros x Hx. unfold LiteralProofs.digit_ok, digit_val. unfold is_hex. rewrite Hx. cbn [orb].
+        apply LiteralProofs.is_digit_spec in Hx as R. unfold hex_val.
+        assert (is_digit x = true) as D by (apply LiteralProofs.is_digit_spec; exact R). rewrite D.
+        replace (x - 48 <? 10) with true by (symmetry; apply N.ltb_lt; lia). reflexivity. }
+      cbn [forallb]. rewrite (K c Hc). cbn [andb]. rewrite forallb_forall in Hw. rewrite forallb_forall. intros x Hx. apply K, Hw, Hx. }
+    pose proof (LiteralProofs.base_value_acc_bound 10 (c :: w) 0 F) as B. rewrite V in B. cbn [length] in B. lia.
+Qed.
+
+(* for a value of at least one *)
+Lemma lead_pos_ge1 v : wf v -> snd v <= fst v ->
+  let p := lead_pos v in (0 <= p)%Z /\
+  10 ^ Z.to_N p * snd v <= fst v /\ fst v < 10 ^ (Z.to_N p + 1) * snd v.
+Proof.
+  unfold wf. destruct v as [n d]. cbn [fst snd]. intros Hd Hle. unfold lead_pos. cbn [fst snd].
+  apply N.leb_le in Hle as Hb. rewrite Hb. set (m := n / d).
+  assert (m <> 0) as Hm. { subst m. intro Z. apply N.div_small_iff in Z; [lia | exact Hd]. }
+  destruct (digits_len_bounds m Hm) as [L U]. set (len := length (digits_of m)) in *.
+  assert (1 <= len)%nat as Hlen.
+  { destruct (LiteralProofs.digits_of_cons m) as (c & w & E & _). subst len. rewrite E. cbn [length]. lia. }
+  split; [lia|].
+  replace (Z.to_N (Z.of_nat len - 1)) with (N.of_nat (len - 1)) by lia.
+  replace (N.of_nat (len - 1) + 1) with (N.of_nat len) by lia.
+  pose proof (N.mul_div_le n d Hd) as D1. pose proof (N.mul_succ_div_gt n d Hd) as D2. fold m in D1, D2.
+  split; nia.
+Qed.
+
+(* for a value below one (and not below 10^-(j+fuel-1)): the first j with 10^-j <= v *)
+Lemma neg_pos_spec : forall fuel v j,
+  rle (1, 10 ^ (j + N.of_nat fuel - 1)) v = true -> (1 <= fuel)%nat -> 1 <= j -> rlt v (1, 10 ^ (j - 1)) = true ->
+  exists J, neg_pos fuel v j = (- Z.of_N J)%Z /\ j <= J /\ rle (1, 10 ^ J) v = true /\ rlt v (1, 10 ^ (J - 1)) = true.
+Proof.
+  induction fuel as [|f IH]; intros v j Hb Hf Hj Hlt; [lia|].
+  cbn [neg_pos]. destruct (rle (1, 10 ^ j) v) eqn:T.
+  - exists j. repeat split; [lia | exact T | exact Hlt].
+  - destruct f as [|f'].
+    + exfalso. replace (j + N.of_nat 1 - 1) with j in Hb by lia. congruence.
+    + destruct (IH v (j + 1)) as (J & E & HJ & A & B).
+      * replace (j + 1 + N.of_nat (S f') - 1) with (j + N.of_nat (S (S f')) - 1) by lia. exact Hb.
+      * lia.
+      * lia.
+      * replace (j + 1 - 1) with j by lia. apply rlt_spec. apply rle_false in T. cbn [fst snd] in *. lia.
+      * exists J. repeat split; [exact E | lia | exact A | exact B].
+Qed.
+
+Lemma lead_pos_lt1 v : wf v -> fst v < snd v -> rle (1, 10 ^ 400) v = true ->
+  exists J, lead_pos v = (- Z.of_N J)%Z /\ 1 <= J /\ rle (1, 10 ^ J) v = true /\ rlt v (1, 10 ^ (J - 1)) = true.
+Proof.
+  intros W Hlt Hb. unfold lead_pos. apply N.leb_gt in Hlt as Hb'. rewrite Hb'.
+  destruct (neg_pos_spec 400 v 1) as (J & E & HJ & A & B); try lia.
+  - exact Hb.
+  - change (10 ^ (1 - 1)) with 1. apply rlt_spec. cbn [fst snd]. lia.
+  - exists J. auto.
 Qed.
